@@ -574,9 +574,40 @@ class Engine:
     def op_age(self, s):
         from .lib import age_tree
 
-        # in-flight markers are left fresh: a live transaction's marker younger than 24 h counts as live
-        age_tree(self.root, s["s"], only=lambda rel: rel.startswith("data") or rel.startswith("metadata/manifests"))
+        # in-flight markers of OPEN transactions are left fresh: a live transaction's marker younger than 24 h counts as live.
+        # Markers that a COMMITTED transaction failed to remove (append_markers_left) age like everything else.
+        left = getattr(self, "left_markers", set())
+        age_tree(self.root, s["s"], only=lambda rel: rel.startswith("data") or rel.startswith("metadata/manifests") or rel in left)
         self.labels["aged"] += 1
+
+    def op_append_markers_left(self, s):
+        """An append that commits, but whose best-effort removal of its in-flight markers fails (storage error on the marker
+        deletes): the markers stay behind, naming files of a COMMITTED snapshot. However old they get, those files are live."""
+        rows = self.rows(s["n"])
+        st_ = self.t.storage
+        orig = st_.delete_file
+
+        def failing(path):
+            if "inflight" in str(path):
+                raise OSError(5, "injected: cannot delete marker")
+            return orig(path)
+
+        before = set(self.fs.list("metadata/inflight"))
+        st_.delete_file = failing
+        try:
+            self._guard("append_markers_left", lambda: self.t.append_records(rows))
+        finally:
+            try:
+                del st_.delete_file
+            except AttributeError:
+                pass
+        new = set(self.fs.list("metadata/inflight")) - before
+        if not hasattr(self, "left_markers"):
+            self.left_markers = set()
+        self.left_markers |= new
+        if new:
+            self.labels["committed-with-markers-left"] += 1
+        self._sync(expect_new={"files": self.cur_files(), "n_new": 1, "rows": self.cur_rows() + rows_multiset(rows)}, op="append_markers_left")
 
     def op_plant(self, s):
         kind = s["kind"]
@@ -658,10 +689,18 @@ class Engine:
             protected_names = set()
             for o in self.open_txns:
                 protected_names.update(o["files"])
+            # a marker that a committed transaction failed to remove keeps protecting what it names until it is 24 h old
+            for mk in getattr(self, "left_markers", set()):
+                if ages.get(mk, 10**9) < 86400 - margin:
+                    try:
+                        protected_names.add(norm(json.loads(self.fs.get(mk).decode("utf-8"))["file_path"]))
+                    except Exception:
+                        protected_names.add("data/" + os.path.basename(mk)[: -len(".inflight")])
+                        protected_names.add("metadata/manifests/" + os.path.basename(mk)[: -len(".inflight")])
             for rel in sorted(L2):
                 if rel.startswith("metadata/inflight"):
                     continue
-                if rel in R or rel in P:
+                if rel in R or rel in P or rel in protected_names:
                     continue
                 a = ages.get(rel)
                 if a is not None and a > grace / 1000.0 + margin:
@@ -706,6 +745,7 @@ def step_strategy(gc=True, clock_ticks="forward", props_ops=True, open_txn=True)
     if gc:
         ss.append((3, st.builds(lambda g: {"op": "gc", "grace_ms": g}, st.sampled_from([0, 3600000, 36000000]))))
         ss.append((2, st.builds(lambda s_: {"op": "age", "s": s_}, st.sampled_from([7200, 90000, 100]))))
+        ss.append((1, st.builds(lambda n: {"op": "append_markers_left", "n": n}, st.integers(1, 2))))
         ss.append((2, st.builds(lambda k, a: {"op": "plant", "kind": k, "age_s": a}, st.sampled_from(["data", "manifest", "tmp", "mlist"]), st.sampled_from([0, 7200, 90000]))))
     if open_txn:
         ss.append((1, st.builds(lambda n, a: {"op": "open_txn", "n": n, "age_s": a}, st.integers(1, 2), st.sampled_from([0, 7200]))))
@@ -728,7 +768,7 @@ def _macros(gc=True):
          {"op": "delete_snapshot", "which": 0}, {"op": "delete_snapshot", "which": 0}] + tail + [{"op": "append", "n": 1}],
         [{"op": "append", "n": 1}, {"op": "txn", "appends": [1, 1], "delete": [0], "expire": ("future", 0)}] + tail,
         [{"op": "append", "n": 1}, {"op": "reappend_file", "pick": 0}, {"op": "append", "n": 1}, {"op": "delete_files", "pick": [0], "slash": False, "ghost": False}] + tail,
-    ])
+    ] + ([[{"op": "append_markers_left", "n": 1}, {"op": "append", "n": 1}, {"op": "age", "s": 90000}, {"op": "gc", "grace_ms": 3600000}, {"op": "append", "n": 1}]] if gc else []))
 
 
 def history_strategy(max_steps=25, **kw):
